@@ -231,6 +231,10 @@ def call_repo(eng, qual, args, kwargs, st):
         return
     reg = eng.registry
     c = reg.get(qual) if reg is not None else None
+    view = getattr(getattr(eng, 'sidecar', None), 'views', {}).get(qual[len('mir_eval.'):] if qual.startswith('mir_eval.') else qual)
+    if view is not None:
+        c = view
+        eng.trusted_facts.add('sidecar-local opaque view of the contract of %s (assumed): %s' % (view.target, view.note))
     if qual in eng.inline or (c is None and eng.auto_inline):
         yield from inline_repo(eng, qual, args, kwargs, st)
         return
@@ -715,6 +719,24 @@ class LemmaInstanceDiscarded(Exception):
     pass
 
 
+def add_clause(eng, st, cl):
+    """record a contract clause together with the branch facts of the contract body under which it was stated"""
+    skip = getattr(eng, 'defined_facts', set())
+    cl['guard'] = [x for x in st.pc[getattr(eng, 'base_pc_len', len(st.pc)):] if not (is_z3(x) and x.get_id() in skip)]
+    eng.clauses.append(cl)
+
+
+def define_fact(eng, st, fact):
+    """a defining fact of a fresh spec symbol: assumed on this path and, inside a contract, carried with the clauses
+    (it is not a branch condition, so it never becomes part of a clause guard)"""
+    if not hasattr(eng, 'defined_facts'):
+        eng.defined_facts = set()
+    eng.defined_facts.add(fact.get_id())
+    st.assume(fact)
+    if getattr(eng, 'clauses', None) is not None:
+        add_clause(eng, st, {'kind': 'define', 'cond': fact})
+
+
 def clause(kind):
     def f(eng, args, kwargs, st):
         label = kwargs.get('label')
@@ -743,7 +765,7 @@ def clause(kind):
         if eng.clauses is None:
             raise OutOfSubset('%s outside a contract' % kind)
         for i, a in enumerate(args):
-            eng.clauses.append({'kind': kind, 'cond': to_bool(a), 'label': label if len(args) == 1 or label is None else '%s.%d' % (label, i),
+            add_clause(eng, st, {'kind': kind, 'cond': to_bool(a), 'label': label if len(args) == 1 or label is None else '%s.%d' % (label, i),
                                 'props': props.split() if isinstance(props, str) else None,
                                 'line': getattr(eng.cur_stmt, 'lineno', None), 'pc': list(st.pc)})
         yield None, st
@@ -753,7 +775,7 @@ def clause(kind):
 def spec_raises(eng, args, kwargs, st):
     cls = args[0].name if isinstance(args[0], FnV) else args[0]
     when = kwargs.get('when', True)
-    eng.clauses.append({'kind': 'raises', 'cls': cls, 'cond': to_bool(when), 'label': kwargs.get('label') or cls,
+    add_clause(eng, st, {'kind': 'raises', 'cls': cls, 'cond': to_bool(when), 'label': kwargs.get('label') or cls,
                         'props': (kwargs.get('props') or '').split() or None, 'line': getattr(eng.cur_stmt, 'lineno', None)})
     yield None, st
 
@@ -988,6 +1010,43 @@ def spec_sum(eng, args, kwargs, st):
         yield sums.sum_of(eng, st, a), st
 
 
+def spec_median(eng, args, kwargs, st):
+    """median_of(a): the same function symbol the model of np.median uses"""
+    from . import sums, npmodel
+    a = npmodel.arr_of(eng, st, args[0])
+    if a is not None and a.ndim == 1 and isinstance(a.shape[0], int) and a.shape[0] > 0 and all(concrete(a.at(k)) is not None for k in range(a.shape[0])):
+        import statistics
+        yield statistics.median([concrete(a.at(k)) for k in range(a.shape[0])]), st
+        return
+    n = to_z3(a.shape[0])
+    med = npmodel.MED()(sums.lam_of(a), n)
+    # the median of a non-empty sequence lies between two of its cells (the fact the model of np.median also states)
+    lo, hi = z3.Int(fresh_name('medlo')), z3.Int(fresh_name('medhi'))
+    fact = z3.Implies(n > 0, z3.And(0 <= lo, lo < n, 0 <= hi, hi < n, to_z3(to_real(to_num(a.at(lo)))) <= med, med <= to_z3(to_real(to_num(a.at(hi))))))
+    define_fact(eng, st, fact)
+    eng.trusted_facts.add('np.median(a) is a function of the cell sequence and lies between two cells of a (library fact, not machine-checked)')
+    yield med, st
+
+
+def spec_rows_extremum(op):
+    def f(eng, args, kwargs, st):
+        """row_min(n, m, lambda i, j: cell) / row_max: the array  i -> min (max) over 0 <= j < m of cell(i, j), for m > 0"""
+        from . import npmodel
+        n, m, lam = args
+
+        def cell(i, j):
+            for v, _ in call_lambda(eng, lam, [i, j], st):
+                return v
+        saved = eng.spec_mode
+        eng.spec_mode = True
+        try:
+            at = npmodel.extremum_rows(eng, st, cell, n, m, op)
+        finally:
+            eng.spec_mode = saved
+        yield new_ref(st, ArrV((n,), at, 'real')), st
+    return f
+
+
 def _sum_fact(name):
     def f(eng, args, kwargs, st):
         from . import sums, npmodel
@@ -1007,7 +1066,7 @@ def _sum_fact(name):
             eng.oblige('lemma' if eng.lemma_mode else 'ghost', label + '-premise', st, prem)
             st.assume(concl)
         elif eng.clauses is not None:
-            eng.clauses.append({'kind': 'hint', 'premise': prem, 'conclusion': concl, 'label': label, 'line': getattr(eng.cur_stmt, 'lineno', None)})
+            add_clause(eng, st, {'kind': 'hint', 'premise': prem, 'conclusion': concl, 'label': label, 'line': getattr(eng.cur_stmt, 'lineno', None)})
         else:
             raise OutOfSubset('%s outside a contract / lemma' % name)
         yield None, st
@@ -1028,7 +1087,7 @@ def spec_assert_step(eng, args, kwargs, st):
     if eng.lemma_mode:
         eng.oblige('lemma', label, st, cond)
     elif eng.clauses is not None:
-        eng.clauses.append({'kind': 'hint', 'premise': cond, 'conclusion': cond, 'label': label, 'line': getattr(eng.cur_stmt, 'lineno', None)})
+        add_clause(eng, st, {'kind': 'hint', 'premise': cond, 'conclusion': cond, 'label': label, 'line': getattr(eng.cur_stmt, 'lineno', None)})
     yield None, st
 
 
@@ -1062,9 +1121,9 @@ SPEC = {
     'fmt': spec_fmt,
     'assert_step': spec_assert_step,
     'floor': spec_floor,
-    'sum_of': spec_sum,
+    'sum_of': spec_sum, 'median_of': spec_median, 'row_min': spec_rows_extremum('min'), 'row_max': spec_rows_extremum('max'),
     'sum_nonneg': _sum_fact('sum_nonneg'), 'sum_le': _sum_fact('sum_le'), 'sum_eq': _sum_fact('sum_eq'), 'sum_add': _sum_fact('sum_add'),
-    'sum_scale': _sum_fact('sum_scale'), 'sum_zero': _sum_fact('sum_zero'), 'sum_ge_term': _sum_fact('sum_ge_term'), 'sum_const': _sum_fact('sum_const'),
+    'sum_scale': _sum_fact('sum_scale'), 'sum_zero': _sum_fact('sum_zero'), 'sum_ge_term': _sum_fact('sum_ge_term'), 'sum_telescope': _sum_fact('sum_telescope'), 'sum_const': _sum_fact('sum_const'),
     'mm': spec_mm,
     'mm_bounds': _mm_axiom('bounds'),
     'mm_monotone': _mm_axiom('monotone'),
@@ -1097,4 +1156,28 @@ SPEC = {
     'length': spec_length,
 }
 
-LAZY_SPEC = {}
+def lazy_ite(eng, e, st):
+    """ite(c, a, b): when the condition is a concrete boolean only the selected branch is evaluated (so that
+    `ite(i == n, d, a[i])` is evaluable on concrete arrays); otherwise all three arguments are evaluated as usual"""
+    if len(e.args) != 3 or e.keywords:
+        raise OutOfSubset('ite takes three positional arguments')
+    for c, st1 in eng.ev(e.args[0], st):
+        if isinstance(c, Raised):
+            yield c, st1
+            continue
+        cb = to_bool(c)
+        if isinstance(cb, bool):
+            yield from eng.ev(e.args[1] if cb else e.args[2], st1)
+            continue
+        for a, st2 in eng.ev(e.args[1], st1):
+            if isinstance(a, Raised):
+                yield a, st2
+                continue
+            for b, st3 in eng.ev(e.args[2], st2):
+                if isinstance(b, Raised):
+                    yield b, st3
+                    continue
+                yield from spec_ite(eng, [c, a, b], {}, st3)
+
+
+LAZY_SPEC = {'ite': lazy_ite}
